@@ -1057,6 +1057,11 @@ class _Frame:
             return None
         if n in ("mean", "max", "min", "amax", "amin") and args and isinstance(args[0], np.ndarray) and not (len(args) > 1 and isinstance(args[1], np.ndarray)):
             return self.method_call(args[0], n, args[1:], kwargs, e)
+        if n in ("clamp", "clamp_min", "clamp_max", "relu", "argmax", "argmin", "sign") and args and isinstance(args[0], np.ndarray):
+            return self.method_call(args[0], n, args[1:], kwargs, e)
+        if n in ("maximum", "minimum") and len(args) == 2:
+            a, b = np.broadcast_arrays(I._obj(np.asarray(args[0])), I._obj(np.asarray(args[1])))
+            return self._numeric_pick(a, b, n == "maximum", e)
         if n in ("maximum", "minimum", "max", "min", "clamp", "amax", "amin"):
             raise AnalysisError(f"npsym: torch.{n} on symbolic data")
         if n in ("unsqueeze", "squeeze", "reshape", "flatten", "repeat_interleave", "index_select", "gather", "outer", "flip", "roll", "cumsum"):
@@ -1066,6 +1071,17 @@ class _Frame:
         if n == "get_default_dtype":
             return TorchMarker("torch.float64")
         raise AnalysisError(f"npsym: torch function `{name}` in `{norm(e)[:60]}`")
+
+    def _numeric_pick(self, a, b, larger, e=None):
+        """elementwise maximum / minimum of two broadcast object arrays whose entries are numbers (exact); symbolic entries fail closed"""
+        np, sp = self.np, self.sp
+        out = np.empty(a.shape, dtype=object)
+        for idx in np.ndindex(*a.shape):
+            u, v = sp.sympify(a[idx]), sp.sympify(b[idx])
+            if not (u.is_number and v.is_number):
+                raise AnalysisError(f"npsym: maximum / minimum / clamp of symbolic data in `{norm(e)[:60] if e is not None else ''}`")
+            out[idx] = (u if u >= v else v) if larger else (u if u <= v else v)
+        return out
 
     def _plain(self, x):
         np, sp = self.np, self.sp
@@ -1290,6 +1306,31 @@ class _Frame:
             return np.flip(x, axis=self._axis(args, kwargs, 0))
         if name == "cumsum":
             return np.cumsum(x, axis=self._axis(args, kwargs, 0))
+        if name in ("clamp", "clamp_min", "clamp_max", "relu", "clamp_"):
+            lo = kwargs.get("min", args[0] if (name in ("clamp", "clamp_min", "clamp_") and args) else None)
+            hi = kwargs.get("max", args[1] if (name in ("clamp", "clamp_") and len(args) > 1) else (args[0] if (name == "clamp_max" and args) else None))
+            if name == "relu":
+                lo = 0
+            out = I._obj(x)
+            if lo is not None:
+                out = self._numeric_pick(*np.broadcast_arrays(out, I._obj(np.asarray(lo))), True, e)
+            if hi is not None:
+                out = self._numeric_pick(*np.broadcast_arrays(out, I._obj(np.asarray(hi))), False, e)
+            if name.endswith("_"):
+                x[...] = out
+                return x
+            return out
+        if name in ("argmax", "argmin"):
+            if x.dtype == object:
+                if not all(sp.sympify(t).is_number for t in x.flat):
+                    raise AnalysisError(f"npsym: .{name}() of symbolic data")
+                x = np.vectorize(lambda t: sp.Rational(t) if sp.sympify(t).is_Rational else float(t), otypes=[object])(x)
+            ax = self._axis(args, kwargs, 0)
+            return getattr(np, name)(x.astype(np.int64) if x.dtype == bool else x, axis=ax)
+        if name == "sign":
+            if x.dtype == object and not all(sp.sympify(t).is_number for t in x.flat):
+                raise AnalysisError("npsym: .sign() of symbolic data")
+            return np.vectorize(lambda t: sp.sign(sp.sympify(t)), otypes=[object])(x)
         if name == "gather":
             return np.take_along_axis(x, args[1], axis=self._int(args[0]))
         if name == "__getitem__":
